@@ -1,6 +1,7 @@
 package main
 
 import (
+	"bytes"
 	"fmt"
 	"io/ioutil"
 	"math"
@@ -60,6 +61,9 @@ type wshape struct {
 	// the writer refuses it: no compaction ever succeeds (recorded finding C17-uncompactable)
 	delShort bool
 	maxN     int
+	// sameOid: every ref points at one object id, so the merged tables' object index has one
+	// record whose position list outgrows a block (the writer then drops the positions)
+	sameOid bool
 }
 
 func runC17(c *ctx) error {
@@ -144,6 +148,7 @@ func c17Workloads(c *ctx) error {
 		{name: "4ref-sha256", refsPerTx: 4, logsPerTx: 1, nameLen: 10, fresh: true, sha256: true},
 		{name: "10ref-short", refsPerTx: 10, nameLen: 5, fresh: true},
 		{name: "1ref-name100", refsPerTx: 1, nameLen: 88, fresh: true},
+		{name: "1ref-sameoid-b128", refsPerTx: 1, nameLen: 40, fresh: true, blockSize: 128, sameOid: true},
 		{name: "uncompactable-b64", refsPerTx: 1, nameLen: 17, fresh: true, symref: true, blockSize: 64, delShort: true, maxN: 12},
 	}
 	N := 150
@@ -201,6 +206,9 @@ func c17Workloads(c *ctx) error {
 						} else {
 							h := make([]byte, hs)
 							c.rng.Read(h)
+							if sh.sameOid {
+								h = bytes.Repeat([]byte{0x5a}, hs)
+							}
 							rec.Value = h
 						}
 						if err := w.AddRef(&rec); err != nil {
@@ -230,7 +238,9 @@ func c17Workloads(c *ctx) error {
 					sizes := reftable.VerifTableSizes(st)
 					before := reftable.VerifTableNames(st)
 					if err := st.AutoCompact(); err != nil {
-						return fmt.Errorf("AutoCompact: %v", err)
+						// a compaction the chooser asked for cannot be carried out: the bound is lost from here on
+						c.emit("depthcost", fmt.Sprintf("%s/%s n=%d depth=%d autocompact-error=%q", sh.name, mode, i+1, len(before), err.Error()), "compaction-failed")
+						break
 					}
 					after := reftable.VerifTableNames(st)
 					after2 := readList(dir)
